@@ -63,7 +63,7 @@ def legal(sc):
 
 def gen_scenarios(tier, seed):
     rng = Rng(PROP, seed, "gen")
-    scale = 1 if tier == "quick" else 8
+    scale = 1 if tier == "quick" else 30
     out = []
     pools = [1, 2, 3, 4, 8, 16]
     bflags = [f | g for f in (0, F_SELF_SKIP, F_SELF_DIRECT, F_SELF_SKIP | F_SELF_DIRECT)
